@@ -236,6 +236,10 @@ func (l *commitLog) Append(msgs []*Message) ([]int64, error) {
 	if _, err := l.checkAndPerformSplit(); err != nil {
 		return nil, err
 	}
+	// Hold the read lock such that the active segment is not rolled or
+	// truncated between assigning the offsets and writing the messages.
+	l.mu.RLock()
+	defer l.mu.RUnlock()
 	var (
 		segment          = l.activeSegment()
 		basePosition     = segment.Position()
@@ -256,6 +260,10 @@ func (l *commitLog) AppendMessageSet(ms []byte) ([]int64, error) {
 	if _, err := l.checkAndPerformSplit(); err != nil {
 		return nil, err
 	}
+	// Hold the read lock such that the active segment is not rolled or
+	// truncated before the message set is written.
+	l.mu.RLock()
+	defer l.mu.RUnlock()
 	var (
 		segment      = l.activeSegment()
 		basePosition = segment.Position()
@@ -761,6 +769,12 @@ func (l *commitLog) checkAndPerformSplit() (bool, error) {
 }
 
 func (l *commitLog) split(oldActiveSegment *segment) error {
+	// Hold the write lock for the whole roll. This keeps appends, which hold
+	// the read lock, from writing to the old active segment once the base
+	// offset of the new one has been determined, and readers from seeing the
+	// new active segment before it has been added to the segments.
+	l.mu.Lock()
+	defer l.mu.Unlock()
 	offset := l.NewestOffset() + 1
 	l.Logger.Debugf("Appending new log segment for %s with base offset %d", l.Path, offset)
 	segment, err := newSegment(l.Path, offset, l.MaxSegmentBytes, true, "")
@@ -776,10 +790,8 @@ func (l *commitLog) split(oldActiveSegment *segment) error {
 		segment.Delete() // nolint: errcheck
 		return ErrSegmentExists
 	}
-	l.mu.Lock()
 	segments := append(l.segments, segment)
 	l.segments = segments
-	l.mu.Unlock()
 	return nil
 }
 
